@@ -110,21 +110,53 @@ def stackKind : Kind where
         nontrivial := st.emptied && s'.length ≥ 1
         tags := [l.op] }
 
-def lstackSpecOnly : Kind where
-  σ := St
+/-- State of the linked-stack monitor: pure spec (while still a live hypothesis about the
+implementation's state), patched spec (known findings). -/
+structure LSt where
+  spec : List Int
+  specAlive : Bool := true
+  patched : Spec.C06.Patched.St Int
+  maxLen : Nat := 0
+  emptied : Bool := false
+
+/-- Monitor for `LStack`.  Two hypotheses about the implementation are tracked: it follows the pure
+LIFO spec, or the spec patched with exactly the listed known findings.  An answer that contradicts
+the pure spec is attributed to a known finding only if the patched spec predicts it; an answer
+neither predicts is a violation. -/
+def lstackMonitor : Kind where
+  σ := LSt
   init := fun ps => match ps with
-    | [.int v] => some { spec := [v], model := [] }
+    | [.int v] => some { spec := [v], patched := Spec.C06.Patched.ofList [v] }
     | _ => none
   step := fun st l =>
     match parseOp l with
     | none => { st := st, bad := some s!"bad stack op {l.op}" }
     | some op =>
-      let (s', so) := Spec.C06.step st.spec op
-      let emptied := st.emptied || (st.maxLen ≥ 2 && s'.isEmpty)
-      { st := { st with spec := s', maxLen := max st.maxLen s'.length, emptied := emptied }
-        spec := if renderOut so == l.res then none else some s!"lifo:{l.op}"
-        nontrivial := st.emptied && s'.length ≥ 1
-        tags := [l.op] }
+      let (p', po) := Spec.C06.Patched.step st.patched op
+      let matchP := renderOut po == l.res
+      if !st.specAlive then
+        { st := { st with patched := p' }
+          spec := if matchP then none else some s!"lifo-after-known-deviation:{l.op}"
+          tags := [l.op] }
+      else
+        let (s', so) := Spec.C06.step st.spec op
+        let matchS := renderOut so == l.res
+        let agreeBefore := st.patched == Spec.C06.Patched.ofList st.spec
+        let emptied := st.emptied || (st.maxLen ≥ 2 && s'.isEmpty)
+        let base : LSt := { st with spec := s', maxLen := max st.maxLen s'.length, emptied := emptied }
+        if matchS && matchP then
+          { st := { base with patched := p' }, nontrivial := st.emptied && s'.length ≥ 1, tags := [l.op] }
+        else if matchS then
+          -- the implementation follows the pure spec here: drop the patched hypothesis' history
+          { st := { base with patched := Spec.C06.Patched.ofList s' }
+            nontrivial := st.emptied && s'.length ≥ 1, tags := [l.op] }
+        else if matchP then
+          let sig := if agreeBefore && st.spec.length ≥ 2 then "lstack.pop-returns-element-beneath"
+                     else "lstack.pop-keeps-bottom"
+          let agreeAfter := p' == Spec.C06.Patched.ofList s'
+          { st := { base with patched := p', specAlive := agreeAfter }, known := some sig, tags := [l.op] }
+        else
+          { st := base, spec := some s!"lifo:{l.op}", tags := [l.op] }
 
 end S
 end GoguVerif.Kinds
